@@ -8,7 +8,7 @@
    [collect_item] is the collector's handling of one piece after the clock was read
    (Collector._collect -> _TranslatingCallback -> _IntervaledCallback -> Generate/VerifyCallback). *)
 From Coq Require Import Lia Sorted.
-From Torf Require Import Base Pipeline PipelineProofs PipeExplore PipeExploreProofs PipeConfigs.
+From Torf Require Import Base Pipeline PipelineProofs FlowProofs LastCallProofs PipeExplore PipeExploreProofs PipeConfigs.
 Open Scope Z_scope.
 
 (* under every schedule, thread count, interval and input: the done counter of every report lies
@@ -17,6 +17,17 @@ Open Scope Z_scope.
 Theorem C12_done_counter : forall c s, reach c s -> calls_ok (zlen (s_seen s)) (s_calls s).
 Proof. exact done_counter_ok. Qed.
 Print Assumptions C12_done_counter.
+
+(* "unless the run is cancelled, the last call reports done = total": for every schedule, number of hashers,
+   reporting interval and clock, a hashing run over readable pieces with a progress callback that returns True
+   made its last report with done = total *)
+Theorem C12_last_report_is_total : forall c s hs,
+  reach c s -> cf_verify c = None -> has_user_cb c = true ->
+  yielded (cf_items c) = map RPiece hs -> cf_total c = zlen hs -> 0 < cf_total c ->
+  s_result s = Some ResTrue ->
+  exists pre idx e, s_calls s = pre ++ [(cf_total c, idx, e)].
+Proof. exact last_call_reports_total. Qed.
+Print Assumptions C12_last_report_is_total.
 
 (* what one collected piece adds: nothing, or one batch carrying the current counter value;
    several entries only if all of them are errors *)
